@@ -834,6 +834,85 @@ def rule_export(chk, prog):
             chk.violation("K13-export", "sqfs_writer_finish:exportable", cs[0] if cs else g, "--exportable no longer leads to an export table being written")
 
 
+def rule_out_fresh(chk, prog, units=("bin/gensquashfs/src/sort_by_file.c",)):
+    """K9-outfresh: a line of the sort file is decoded by helpers that hand their findings back through out-parameters
+    (flags, glob mode, priority).  A helper that writes such an out-parameter on some way to `return 0` writes it on every
+    way to `return 0` -- or the caller sets the variable afresh in the loop before each call.  Otherwise a line without the
+    optional part inherits what the last line with it had: flags are applied to files that were listed without them."""
+    from ..errflow import ret_sources
+    n = 0
+    for g in prog.functions():
+        if g.decl or g.unit.src not in units or not g.internal:
+            continue
+        g.build()
+        zero = {b for (v, b) in ret_sources(g) if strip_casts(v).is_const and strip_casts(v).is_int and strip_casts(v).sval == 0}
+        if not zero:
+            continue
+        for k, par in enumerate(g.params):
+            if (par.ty or "") not in ("i8*", "i32*", "i64*", "i1*", "i16*"):
+                continue
+            stores = [i for i in g.insts() if i.op == "store" and strip_casts(i.ops[1]) is par]
+            if not stores:
+                continue
+            # is the parameter only written (an out-parameter), never read before it is written?  reads are fine, they just
+            # make it in/out; the rule is about the ways to success that leave it alone
+            sb = {i.bb for i in stores}
+            seen, work, bad = set(), [g.blocks[0]], None
+            while work and bad is None:
+                b = work.pop()
+                if b in seen or b in sb:
+                    continue
+                seen.add(b)
+                if b in zero:
+                    bad = b
+                work.extend(b.succs)
+            n += 1
+            chk.analysed(g)
+            inst = "%s:%s" % (g.name, par.name or ("arg%d" % k))
+            if bad is None:
+                chk.ok("K9-outfresh", inst, g, "every way to `return 0` writes the out-parameter")
+                continue
+            # the caller may set its variable afresh before every call
+            fresh = True
+            cs = prog.callers_of(g)
+            for c in cs:
+                f = c.fn
+                f.build()
+                a = strip_casts(c.ops[k]) if k < len(c.ops) else None
+                if a is None or not (a.is_inst and a.op == "alloca"):
+                    fresh = False
+                    continue
+                loop = None
+                for (h, body) in f.loops:
+                    if c.bb in body and (loop is None or len(body) < len(loop[1])):
+                        loop = (h, body)
+                if loop is None:
+                    continue            # called once: the initialiser is the value
+                init = {i.bb for i in f.insts() if i.op == "store" and strip_casts(i.ops[1]) is a and i.bb in loop[1] and
+                        (i.bb is not c.bb or i.pos < c.pos)}
+                seen2, work2 = set(), [loop[0]]
+                hit = False
+                while work2:
+                    b = work2.pop()
+                    if b in seen2 or b in init or b not in loop[1]:
+                        continue
+                    seen2.add(b)
+                    if b is c.bb:
+                        hit = True
+                        break
+                    work2.extend(b.succs)
+                if hit:
+                    fresh = False
+            if fresh and cs:
+                chk.ok("K9-outfresh", inst, g, "some way to `return 0` leaves the out-parameter alone, every caller sets its variable "
+                       "afresh before the call")
+            else:
+                chk.violation("K9-outfresh", inst, bad.term, "%s writes '%s' on some ways to `return 0` and leaves it alone on others, "
+                              "and a caller that calls it in a loop does not reset its variable in between: a line without the "
+                              "optional part inherits what an earlier line set (flags, glob mode)" % (g.name, par.name or "the out-parameter"))
+    return n
+
+
 def run(chk):
     chk.explanation = (
         "The layout of produced images is value-level and not decided. Decided on LLVM IR is the transport of every "
@@ -846,7 +925,7 @@ def run(chk):
         "packing adds the bit only for sizes strictly greater than the block size, in gensquashfs and tar2sqfs); "
         "K11-order (post-process, then sort, then pack; packing walks the sorted list); K14-sort (priorities compared at "
         "full width, strictly; comparator-shaped helpers evaluated exhaustively incl. truncated differences); K13-export "
-        "(export table entry count only grows, slot index from the inode number, written when requested). K13-fragflags: the flags of a fragment block are built from constants and the fragment bit only, never from a file's flags; K14-sortkey: the whole file list is handed to the sort, no part of it is split off by whether a line matched.")
+        "(export table entry count only grows, slot index from the inode number, written when requested). K13-fragflags: the flags of a fragment block are built from constants and the fragment bit only, never from a file's flags; K14-sortkey: the whole file list is handed to the sort, no part of it is split off by whether a line matched. K9-outfresh: a decoder of a sort file line writes each of its out-parameters (flags, glob mode, priority) on every way to success, or its caller resets the variable before every call.")
     chk.assumptions = ["stability of an arbitrary sort algorithm is decided only for the selection-sort shape (strict comparison)"]
     E = enum_values()
     prog = load_program("gensquashfs")
@@ -860,6 +939,8 @@ def run(chk):
     chk.floor("K13-fragflags", 1)
     rule_sort_key(chk, prog)
     chk.floor("K14-sortkey", 1)
+    rule_out_fresh(chk, prog)
+    chk.floor("K9-outfresh", 1)
     # "none of these changes the contents read back": whatever a per-file flag does in the block writer, every block
     # that is written stays on its record (the truncation after a duplicate run knows nothing else) -- K11-logged of C08
     from .c08 import rule_j_logged, rule_g_truncate
